@@ -29,6 +29,22 @@ func (ex *Exec) SMTText(o *Obligation, wantModel bool) string {
 	sb.WriteString("(set-option :produce-models true)\n(set-logic ALL)\n")
 	fmt.Fprintf(&sb, "; obligation: %s\n; kind: %s\n; source: %s\n", o.Name, o.Kind, strings.ReplaceAll(o.Src, "\n", " "))
 	sb.WriteString(ex.Prelude.Text)
+	if o.Kind == "lemma" || strings.HasPrefix(o.Func, "lemma:") {
+		// lemmas are closed goals over the spec functions: keep the context minimal (nonlinear proofs are
+		// sensitive to irrelevant declarations)
+		for _, d := range o.Decls {
+			sb.WriteString(d)
+			sb.WriteString("\n")
+		}
+		for _, p := range o.PC {
+			fmt.Fprintf(&sb, "(assert %s)\n", p.S)
+		}
+		fmt.Fprintf(&sb, "(assert (not %s))\n(check-sat)\n", o.Goal.S)
+		if wantModel {
+			sb.WriteString("(get-model)\n")
+		}
+		return sb.String()
+	}
 	sb.WriteString(ex.Sorts.Decls())
 	for _, n := range ex.funOrder {
 		sb.WriteString(ex.funDecls[n])
@@ -48,6 +64,12 @@ func (ex *Exec) SMTText(o *Obligation, wantModel bool) string {
 		sb.WriteString("\n")
 	}
 	for _, p := range o.PC {
+		if o.Cover && (strings.Contains(p.S, "(forall ") || strings.Contains(p.S, "(exists ")) {
+			// reachability covers are decided on the quantifier-free part of the path condition (solvers do not
+			// return sat under quantifiers); quantified conjuncts come from callee contracts and invariants
+			fmt.Fprintf(&sb, "; (cover: quantified conjunct dropped) %s\n", truncate(p.S, 200))
+			continue
+		}
 		fmt.Fprintf(&sb, "(assert %s)\n", p.S)
 	}
 	fmt.Fprintf(&sb, "(assert (not %s))\n(check-sat)\n", o.Goal.S)
@@ -73,7 +95,11 @@ var Solvers = []Solver{
 }
 
 func runSolver(s Solver, file string, timeout time.Duration) (status string, out string, secs float64) {
-	ctx, cancel := context.WithTimeout(context.Background(), timeout+2*time.Second)
+	return runSolverCtx(context.Background(), s, file, timeout)
+}
+
+func runSolverCtx(parent context.Context, s Solver, file string, timeout time.Duration) (status string, out string, secs float64) {
+	ctx, cancel := context.WithTimeout(parent, timeout+2*time.Second)
 	defer cancel()
 	a := s.Args(file, timeout)
 	cmd := exec.CommandContext(ctx, a[0], a[1:]...)
@@ -90,6 +116,9 @@ func runSolver(s Solver, file string, timeout time.Duration) (status string, out
 		return first, out, secs
 	case "timeout":
 		return "timeout", out, secs
+	}
+	if parent.Err() != nil {
+		return "cancelled", out, secs
 	}
 	if ctx.Err() != nil || strings.Contains(out, "timeout") || strings.Contains(out, "interrupted") {
 		return "timeout", out, secs
@@ -126,9 +155,9 @@ func (ex *Exec) solveOne(o *Obligation, dir string, idx int, timeout time.Durati
 	os.WriteFile(file, []byte(text), 0o644)
 	r := &SolveResult{Obl: o, File: file, Status: "unknown"}
 	t0 := time.Now()
-	// stage 1: z3-new with a third of the budget (at least 2 s)
-	first := timeout / 3
-	if first < 2*time.Second {
+	// stage 1: z3-new alone for a short time (most obligations are decided in milliseconds)
+	first := 2 * time.Second
+	if first > timeout {
 		first = timeout
 	}
 	st, out, secs := runSolver(Solvers[0], file, first)
@@ -136,32 +165,37 @@ func (ex *Exec) solveOne(o *Obligation, dir string, idx int, timeout time.Durati
 	if st == "unsat" || st == "sat" {
 		r.Status, r.Backend, r.Output = st, Solvers[0].Name, out
 	} else {
-		// stage 2: all solvers in parallel with the full budget
+		// stage 2: race all solvers with the full budget; the first definitive answer wins
 		type res struct {
 			s    Solver
 			st   string
 			out  string
 			secs float64
 		}
+		ctx, cancel := context.WithCancel(context.Background())
 		ch := make(chan res, len(Solvers))
 		for _, s := range Solvers {
 			go func(s Solver) {
-				st, out, secs := runSolver(s, file, timeout)
+				st, out, secs := runSolverCtx(ctx, s, file, timeout)
 				ch <- res{s, st, out, secs}
 			}(s)
 		}
 		for range Solvers {
 			x := <-ch
-			r.Attempts = append(r.Attempts, fmt.Sprintf("%s:%s:%.2fs", x.s.Name, x.st, x.secs))
+			if x.st != "cancelled" {
+				r.Attempts = append(r.Attempts, fmt.Sprintf("%s:%s:%.2fs", x.s.Name, x.st, x.secs))
+			}
 			if (x.st == "unsat" || x.st == "sat") && r.Backend == "" {
 				r.Status, r.Backend, r.Output = x.st, x.s.Name, x.out
-			} else if r.Backend == "" {
+				cancel()
+			} else if r.Backend == "" && x.st != "cancelled" {
 				if x.st == "timeout" {
 					r.Status = "timeout"
 				}
 				r.Output += x.s.Name + ": " + truncate(x.out, 300) + "\n"
 			}
 		}
+		cancel()
 	}
 	if crossCheck && r.Status == want && want == "unsat" {
 		// confirm with a second solver
